@@ -79,6 +79,10 @@ static void stdfill(int w, int h, vt::Rng& rng) {
     { std::vector<int> v; gil::fill_histogram(gil::const_view(img), v); std::vector<std::pair<long long, long long>> c; for (size_t i = 0; i < v.size(); ++i) c.push_back({(long long)i, v[i]}); dump("vector", c); }
     { std::array<int, 256> a{}; gil::fill_histogram(gil::const_view(img), a); std::vector<std::pair<long long, long long>> c; for (size_t i = 0; i < a.size(); ++i) c.push_back({(long long)i, a[i]}); dump("array", c); }
     { std::map<int, int> m; gil::fill_histogram(gil::const_view(img), m); std::vector<std::pair<long long, long long>> c; for (auto& kv : m) c.push_back({kv.first, kv.second}); dump("map", c); }
+    // containers that already hold counts (of another length / other keys): without accumulate the previous contents are replaced
+    for (size_t n0 : {(size_t)7, (size_t)256, (size_t)300, (size_t)65536}) { std::vector<int> v(n0, 3); gil::fill_histogram(gil::const_view(img), v); std::vector<std::pair<long long, long long>> c; for (size_t i = 0; i < v.size(); ++i) if (v[i] != 0 || i < 256) c.push_back({(long long)i, v[i]}); dump("vector_reused", c); }
+    { std::array<int, 256> a; a.fill(9); gil::fill_histogram(gil::const_view(img), a); std::vector<std::pair<long long, long long>> c; for (size_t i = 0; i < a.size(); ++i) c.push_back({(long long)i, a[i]}); dump("array_reused", c); }
+    { std::map<int, int> m; m[3] = 11; m[999] = 4; gil::fill_histogram(gil::const_view(img), m); std::vector<std::pair<long long, long long>> c; for (auto& kv : m) c.push_back({kv.first, kv.second}); dump("map_reused", c); }
     { std::vector<int> v(256, 5); gil::fill_histogram(gil::const_view(img), v, true); std::vector<std::pair<long long, long long>> c; for (size_t i = 0; i < v.size(); ++i) c.push_back({(long long)i, v[i] - 5}); dump("vector_accumulate", c); }
 }
 
